@@ -154,10 +154,17 @@ int main() {}
             ws += [wa, wc]
             checks.append('  CHECK(%s(a, b) == %s(a, b), "%s-agrees-with-chrono");' % (wa.name, wc.name, nm))
         bnd = '(b >= %s && b <= 1000000000)' % ('0' if not G.REPS[rq]['signed'] else '-1000000000')
+        # the six comparisons, both operand orders, against chrono's own mixed-rep comparison
+        for n_, op_ in (('eq', '=='), ('ne', '!='), ('lt', '<'), ('le', '<='), ('gt', '>'), ('ge', '>=')):
+            for side, au_e, ch_e in (('dq', '%s{a} %s %s' % (DD, op_, Q), '%s{a} %s %s{b}' % (DD, op_, DQ)), ('qd', '%s %s %s{a}' % (Q, op_, DD), '%s{b} %s %s{a}' % (DQ, op_, DD))):
+                wa = Wrapper('w_mr_au_%s_%s_%s' % (n_, side, tag), 'bool', [(cd, 'a'), (cq, 'b')], 'return %s;' % au_e)
+                wc = Wrapper('w_mr_ch_%s_%s_%s' % (n_, side, tag), 'bool', [(cd, 'a'), (cq, 'b')], 'return %s;' % ch_e)
+                ws += [wa, wc]
+                checks.append('  CHECK(%s(a, b) == %s(a, b), "%s-%s-agrees-with-chrono");' % (wa.name, wc.name, side, n_))
         body = '\n  ASSUME(%s);\n%s\n' % (bnd, '\n'.join(checks))
         obs.append(Ob(id='C17.mixed-addsub-mixedrep.%s' % tag, prop='C17', group='C17.mixedrep.%s' % tag, prelude=PRE, wrappers=ws, inputs=[(cd, 'a'), (cq, 'b')], body=body,
                       contract='forall a:%s (whole range), |b| <= 10^9 (%s): quantity<Seconds,%s>(b) -/+ duration<%s, ratio<%d,%d>>{a} and the mirrored forms, read in the common unit and the common '
-                               'rep %s, equal the count chrono computes for duration<%s>{b} -/+ the same duration (unsigned results are compared modulo 2^N, as chrono computes them)'
+                               'rep %s, equal the count chrono computes for duration<%s>{b} -/+ the same duration (unsigned results are compared modulo 2^N, as chrono computes them); the six comparisons in both operand orders equal chrono\'s'
                                % (cd, cq, cq, cd, PERIODS[per][0], PERIODS[per][1], ccr, cq),
                       functions_under_contract=('au::operator-(Quantity, QLike)', 'au::operator-(QLike, Quantity)', 'au::operator+(Quantity, QLike)', 'au::operator+(QLike, Quantity)')))
     return obs
